@@ -170,7 +170,7 @@ def helper_case(draw):
     fg = draw(gen.freq_grid(4, 10))
     dg = draw(gen.dir_grid(4, 12))
     return dict(fg=fg, dg=dg, which=draw(st.sampled_from(["construct_partition", "shapes", "read_ww3", "read_ncswan", "read_wwm", "read_era5", "read_ndbc", "read_wavespectra", "partition_and_reconstruct", "scaled",
-                                                                     "acc_stats_args", "acc_bbox_args", "acc_interp_args", "acc_plot_kwargs", "acc_plot_kwargs", "acc_split_args"])),
+                                                                     "from_ww3_stdnames", "from_ncswan_stdnames", "from_wwm_direct", "from_era5_direct", "acc_stats_args", "acc_bbox_args", "acc_interp_args", "acc_plot_kwargs", "acc_plot_kwargs", "acc_split_args"])),
                 specs=[draw(gen.spectrum(kinds=("multinoisy", "sparse"))) for _ in range(2)], nt=draw(st.integers(1, 3)), ns=draw(st.sampled_from([2, 4])),
                 winds=[dict(wspd=draw(st.floats(1, 30)), wdir=draw(st.floats(0, 360)), dpt=draw(st.sampled_from([5.0, 50.0])))], latlon_time=draw(st.booleans()), as_list=draw(st.booleans()))
 
@@ -236,6 +236,34 @@ def check_helpers(case, ctx):
                     return one.spec.plot(kind=kind, subplot_kws=kws, levels=lev if kind != "pcolormesh" else None, **extra)
                 finally:
                     plt.close("all")
+    elif which.startswith("from_"):
+        # the converters called directly, also on datasets that already carry the wavespectra names (native units and direction
+        # sense): no renaming is needed then, which is where a converter could end up working on the caller's object
+        from wavespectra.input.ww3 import from_ww3
+        from wavespectra.input.ncswan import from_ncswan
+        from wavespectra.input.wwm import from_wwm
+        from wavespectra.input.era5 import from_era5
+
+        T = native.truth(case["fg"], case["dg"], case["specs"], case["nt"], case["ns"], case["winds"], gen)
+        if which == "from_ww3_stdnames":
+            nds = native.ww3(T, latlon_time=case["latlon_time"])
+            nds = nds.rename({k: v for k, v in dict(frequency="freq", direction="dir", station="site", longitude="lon", latitude="lat", wnd="wspd", wnddir="wdir").items() if k in nds.variables or k in nds.dims})
+            fn = from_ww3
+        elif which == "from_ncswan_stdnames":
+            nds = native.ncswan(T, latlon_time=case["latlon_time"])
+            nds = nds.rename({k: v for k, v in dict(frequency="freq", direction="dir", points="site", longitude="lon", latitude="lat", density="efth").items() if k in nds.variables or k in nds.dims})
+            fn = from_ncswan
+        elif which == "from_wwm_direct":
+            nds = native.wwm(T)
+            fn = from_wwm
+        else:
+            nds = native.era5(T, nlat=2)
+            fn = lambda x: from_era5(x, freqs=list(f), dirs=list(d))  # noqa: E731
+        if case["as_list"]:
+            nds = nds.chunk()
+        nds.attrs["source"] = "caller"
+        args = dict(ds=nds)
+        call = lambda: fn(nds)  # noqa: E731
     else:
         T = native.truth(case["fg"], case["dg"], case["specs"], case["nt"], case["ns"], case["winds"], gen)
         if which == "read_ww3":
